@@ -107,6 +107,16 @@ Theorem monitor_complete :
 Proof. exact monitor_complete_C13_lemma. Qed.
 Print Assumptions monitor_complete.
 
+(* The same with the contract in its static, decidable form (FLockContract.prog_okb: the program
+   releases only what it holds on both outcomes of every acquire): no hypothesis on the run. *)
+Theorem monitor_complete_static :
+  forall reent dflt prog scen vops vres a b c ops rs wh p1 p2,
+    scen <= 2 -> (forall cl, In cl prog -> call_obj cl = 0) -> prog_okb (S (length prog)) [] prog = true ->
+    Case_C13.model_trace (Case_C13.CCrash reent dflt prog scen false vops vres true a b c) = (ops, rs, wh, p1, p2) ->
+    Case_C13.ok (Case_C13.CCrash reent dflt prog scen false vops vres true wh p1 p2) = true.
+Proof. exact monitor_complete_static_C13_lemma. Qed.
+Print Assumptions monitor_complete_static.
+
 (* the hypotheses of monitor_complete hold on a concrete case: reentrant victim killed in the
    middle of its release (after unlock, before close), survivor waiting afterwards *)
 Example monitor_complete_example :
